@@ -251,10 +251,15 @@ func propC02(c *Check) {
 			}, "z_i = fresh ReadRand(>=16 bytes) buffer allocated in this iteration -> Rcoeffs[i].SetCanonicalBytes", "each entry is weighted by its own independent 128-bit random coefficient")
 			c.LoopGate(f, lp, Gate{Name: "len(entry.signature) != 64 => false", RejectOnTrue: true,
 				Cond: Bin(token.NEQ, Len(Path(Param("v"), "entries.[].signature")), ConstInt(64))}, "only full-length signatures enter the equation")
-			c.LoopGate(f, lp, Gate{Name: "decodePoint err != nil => false", RejectOnTrue: true, Min: 2,
-				Cond: BinEither(token.NEQ, Extract(1, Call("crypto.decodePoint")), ConstNil)}, "R and A are valid decoded points")
-			c.LoopGate(f, lp, Gate{Name: "SetCanonicalBytes err != nil => false", RejectOnTrue: true, Min: 2,
-				Cond: BinEither(token.NEQ, Extract(1, Call("(*filippo.io/edwards25519.Scalar).SetCanonicalBytes")), ConstNil)}, "z_i and s_i are canonical scalars")
+			ent := func(field string) VM { return Has(Path(Param("v"), "entries.[]."+field)) }
+			c.LoopGate(f, lp, Gate{Name: "decodePoint(entry.signature[:32]) err != nil => false", RejectOnTrue: true,
+				Cond: BinEither(token.NEQ, Extract(1, Call("crypto.decodePoint", ent("signature"))), ConstNil)}, "R is a valid decoded point")
+			c.LoopGate(f, lp, Gate{Name: "decodePoint(entry.pubkey) err != nil => false", RejectOnTrue: true,
+				Cond: BinEither(token.NEQ, Extract(1, Call("crypto.decodePoint", ent("pubkey"))), ConstNil)}, "A is a valid decoded point")
+			c.LoopGate(f, lp, Gate{Name: "s_i SetCanonicalBytes(entry.signature[32:]) err != nil => false", RejectOnTrue: true,
+				Cond: BinEither(token.NEQ, Extract(1, Call("(*filippo.io/edwards25519.Scalar).SetCanonicalBytes", nil, ent("signature"))), ConstNil)}, "s_i is a canonical scalar")
+			c.LoopGate(f, lp, Gate{Name: "z_i SetCanonicalBytes(buf) err != nil => false", RejectOnTrue: true,
+				Cond: BinEither(token.NEQ, Extract(1, Call("(*filippo.io/edwards25519.Scalar).SetCanonicalBytes", nil, func(v ssa.Value) bool { return !ent("signature")(v) })), ConstNil)}, "z_i is a canonical scalar")
 		}
 	}
 	// ---- compensating signature checks of the classes exempted from the input-signature rule:
@@ -285,6 +290,15 @@ func propC02(c *Check) {
 				bad = instrPos(w, r)
 			}
 		}
+		nonFalse := []ssa.Instruction{}
+		for _, r := range allReturns(f) {
+			if !ConstBool(false)(retValue(r, 0)) {
+				nonFalse = append(nonFalse, r)
+			}
+		}
+		c.MustPass(f, Gate{Name: "decodePoint(publicKey) err != nil => false", RejectOnTrue: true, Cond: BinEither(token.NEQ, Extract(1, Call("crypto.decodePoint", Has(Param("publicKey")))), ConstNil)}, nonFalse, "the verdict")
+		c.MustPass(f, Gate{Name: "decodePoint(sig[:32]) err != nil => false", RejectOnTrue: true, Cond: BinEither(token.NEQ, Extract(1, Call("crypto.decodePoint", Has(Param("sig")))), ConstNil)}, nonFalse, "the verdict")
+		c.MustPass(f, Gate{Name: "SetCanonicalBytes(sig[32:]) err != nil => false", RejectOnTrue: true, Cond: BinEither(token.NEQ, Extract(1, Call("(*filippo.io/edwards25519.Scalar).SetCanonicalBytes", nil, Has(Param("sig")))), ConstNil)}, nonFalse, "the verdict")
 		c.Require(n == 1 && bad == "", "shape", shortName(f)+"|verdict = ([s]B - [a]A == R)", "the only non-false verdict is VarTimeDoubleScalarBaseMult(a, -A, s).Equal(R) == 1 with A decoded from the key, R and s from the signature", fmt.Sprintf("non-false returns: %d; offending return %q", n, bad), c.W.Pos(f.Pos()))
 	}
 	if f := c.F("(*crypto.BatchVerifier).Verify"); f != nil {
